@@ -222,7 +222,10 @@ def spokes_case(rng):
         k[rng.randrange(ns)][rng.randrange(2)] = 0.0
     if ns > 1 and rng.random() < 0.3:       # repeated location: zero increment on both axes
         k[1] = list(k[0])
-    return dict(fn="spokes_grad", kind="spokes", k=k, tbw=rng.choice([2, 4, 8]), sl_thick=rng.choice([3.0, 5.0, 10.0]),
+    kd = rng.choice(["float64", "float64", "float64", "int", "float32"])
+    if kd == "int":                        # locations on an integer grid (cycles/cm), stored as integers
+        k = [[float(rng.randint(-2, 2)), float(rng.randint(-2, 2))] for _ in range(ns)]
+    return dict(fn="spokes_grad", kind="spokes", k=k, kdtype=kd, tbw=rng.choice([2, 4, 8]), sl_thick=rng.choice([3.0, 5.0, 10.0]),
                 gmax=rng.choice([2.0, 4.0, 8.0]), dgdt=rng.choice([8000.0, 18000.0, 50000.0]), dt=rng.choice([4e-6, 1e-5]))
 
 
@@ -237,7 +240,16 @@ def spokes_oracle(tg, c):
     for v in np.abs(inc).ravel():
         if v > 0 and tg.trap_grad(v / GAMMA, gmax, dgdt, dt)[0].shape[1] > nsub:
             return False, []                                           # blip longer than the slice-select lobe: outside the designer's domain
-    g = np.asarray(tg.spokes_grad(k, c["tbw"], c["sl_thick"], gmax, dgdt, dt))
+    kk = k
+    if c.get("kdtype") == "int":          # integer grid of locations handed over as an integer array
+        kk = np.rint(k).astype(np.int64)
+        k = kk.astype(float)
+        inc = np.diff(np.vstack((k, np.zeros((1, 2)))), axis=0)
+    elif c.get("kdtype") == "float32":
+        kk = k.astype(np.float32)
+        k = kk.astype(float)
+        inc = np.diff(np.vstack((k, np.zeros((1, 2)))), axis=0)
+    g = np.asarray(tg.spokes_grad(kk, c["tbw"], c["sl_thick"], gmax, dgdt, dt))
     bad = []
     if g.ndim != 2 or g.shape[0] != 3:
         return True, [("shape", "(3, Nt)", list(g.shape))]
@@ -291,6 +303,14 @@ def run(ctx):
         cases.append(gen_boundary_mintrap(rng))
         cases.append(gen_small_mintrap(rng))
 
+    # near-duplicate requests right after each other: every argument within 1e-9 (absolute) of the previous call's, so that
+    # anything remembered from one design and handed to the next shows up as a wrong area / limit of the SECOND waveform
+    seq = []
+    for c in cases[:]:
+        if len(seq) < 2 * ctx.n(40, 400) and c.get("area", 1) < 3e-6 and c["fn"] in ("trap_grad", "min_trap_grad") and "area" in c:
+            c2 = dict(c, area=c["area"] * (1 + 3e-4), dt=c["dt"] * (1 + 2e-5))
+            seq += [c, c2]
+    cases += seq
     done, reported = [], set()
     n_oracle_bad = 0
     for c in cases:
